@@ -61,6 +61,14 @@ CHECKS = [
      "technique": "bounded exhaustive enumeration of reference cells x reference orientations x stretches x rotations x m against the closed-form Seth-Hill tensors",
      "text": "5 cells x 4 reference forms (cell, or another grain in 3 orientations) x 9 (14) stretches up to 10 % x 6 rotations x 7 values of m: grain-frame strain = (S^2m - I)/2m (log for m=0) independent of R, sample-frame strain = R E R^T, symmetric, exactly zero for S = I, m-dependence second order, e6 ordering; guvectorised Biot strains and TensorMap.eps_sample/eps_crystal (both access orders) voxel by voxel incl. NaN voxels.",
      "note": "the TensorMap rotation path (eps_sample from a cached eps_crystal) is only required to agree to second order in the strain"},
+    {"id": "C01", "engine": "E1-explore", "level": "exploration",
+     "technique": "bounded exhaustive enumeration of the full on/off product of the geometry parameters, every configuration evaluated on every implementation route against the Python reference formulas",
+     "text": "all 16 384 on/off combinations (pixel-size signs, three tilts, 8 flips, wedge, chi, omega sign, three translation components) for one magnitude set chosen by the seed (thorough: four sets) x 12 (36) peaks: Ctransform sf2xyz/xyz2gv/sf2gv/xyz2geometry, columnfile.updateGeometry fast vs slow (nine columns, translation via parameters and explicit) and updateGV, point_by_point numba helpers, compute_gve (also with per-peak xpos) and get_local_gv, all against transform.compute_xyz_lab/compute_tth_eta_from_xyz/compute_k_vectors/compute_g_from_k.",
+     "note": "the reference itself is trusted here and checked by laws in C02; dead parameters would be reported (every parameter is measured to be live)"},
+    {"id": "C02", "engine": "E1-explore", "level": "exploration",
+     "technique": "bounded exhaustive enumeration of angle/g-vector grids against reference-independent laws (Bragg, rigid rotation, inverse-then-forward, detector round trip) and an own Ewald-sphere test",
+     "text": "2304 (tth, eta, omega) x 3 wavelengths x 16 (wedge, chi) x omega sign: |g| lambda = 2 sin theta for Python and C, |g| independent of omega/wedge/chi, g(omega+d) = Rz(-d) g, both inverse solutions map back to g and contain the generating omega; 720 constructed g per setting inside the blind cone and beyond 2/lambda must be flagged, never given angles; detector projection and back on 4096 (16 384) configurations x 192 rays.",
+     "note": "cases within 1e-7 of the blind-cone boundary (e.g. eta = 0 or 180 exactly) are borderline"},
     # --- END CHECKS
 ]
 
